@@ -31,3 +31,28 @@ contract("JobSubmitter._build_results", file=F,
              "num_successful + num_failed + num_canceled == len(self._results)",
              "num_successful == fold('n_succ', self._results) and num_failed == fold('n_fail', self._results) and num_canceled == fold('n_canc', self._results)",
          ])
+
+# ---- cancel (C14) ---------------------------------------------------------------------------------------------------
+opaque_fn("make_submission_group_lookup")
+ghost("scanceled", "Set[Name]")          # scheduler ids for which scancel was issued
+contract("HpcManager.__init__", kind="assumed", params=[("submission_groups", "Opaque"), ("output", "Opaque")], returns="Ref[HpcManager]",
+         fresh_result=True, modifies=["HpcManager._output", "HpcManager._hpc_type", "HpcManager._configs", "HpcManager._intfs"],
+         note="builds one scheduler interface per submission group")
+contract("HpcManager.cancel_job", kind="assumed", params=[("self", "Ref[HpcManager]"), ("job_id", "Name")], returns="int",
+         ensures=["forall(x, Name, (x in ghost.scanceled) == (x in old(ghost.scanceled) or x == job_id))"], modifies=["ghost.scanceled", "ghost.execs", "ghost.last_ret"],
+         note="HpcManager.cancel_job -> SlurmManager.cancel_job (verified in C18): runs `scancel <id>` once")
+_mc = contract.__globals__["CONTRACTS"]["Cluster.mark_canceled"]
+contract("JobSubmitter.cancel_jobs", file=F,
+         params=[("self", "Ref[JobSubmitter]"), ("cluster", "Ref[Cluster]")],
+         requires=["not isnone(cluster._job_status)"] + [r.replace("self", "cluster") for r in _mc.requires],
+         ensures=[
+             # C14: every batch that was active is asked to be canceled, and the submission is marked canceled - whatever the number of active batches
+             "forall(i, range(len(val(cluster._job_status).hpc_job_ids)), val(cluster._job_status).hpc_job_ids[i] in ghost.scanceled)",
+             "cluster._config.is_canceled and cfg_mirrored(cluster)",
+             "not ghost.cluster_lock",
+         ],
+         loops={1: {"invariant": ["forall(i, range(_k1), _it1[i] in ghost.scanceled)", "subset(old(ghost.scanceled), ghost.scanceled)"]}},
+         raises={k: dict(v, when=[w.replace("self", "cluster") for w in v.get("when", [])],
+                         ensures=[e.replace("self", "cluster") for e in v.get("ensures", [])], iff=False, frame=False) for k, v in _mc.raises.items()},
+         modifies=[m.replace("self.", "cluster.") for m in _mc.modifies] + ["ghost.scanceled", "ghost.execs", "ghost.last_ret",
+                   "HpcManager._output", "HpcManager._hpc_type", "HpcManager._configs", "HpcManager._intfs"])
